@@ -116,10 +116,11 @@ let xobserve (r : xrepo) (oc : outcome) =
 let flags_of s =
   let b i = Stdlib.String.length s > i && s.[i] = '1' in
   { fixed_P7 = b 0; fixed_P8 = b 1; fixed_mv_absent = b 2; fixed_P45 = b 3; fixed_P47 = b 4; fixed_P3 = b 5;
-    core = { Fix.fixed_P44 = b 6; Fix.fixed_P41 = b 7; Fix.fixed_P49 = b 8; Fix.fixed_P43 = b 9 } }
+    core = { Fix.fixed_P44 = b 6; Fix.fixed_P41 = b 7; Fix.fixed_P49 = b 8; Fix.fixed_P43 = b 9 };
+    fixed_P50 = b 10 }
 
-(* repo <algo> <method> <tob> <flags: up to ten characters 0/1 = fixed_P7 fixed_P8 fixed_mv_absent fixed_P45 fixed_P47 fixed_P3, then the
-   switches of the core commands (Repo/Fix.v) fixed_P44 fixed_P41 fixed_P49 fixed_P43; a missing character is 0> | item ; item ; ...
+(* repo <algo> <method> <tob> <flags: up to eleven characters 0/1 = fixed_P7 fixed_P8 fixed_mv_absent fixed_P45 fixed_P47 fixed_P3, then the
+   switches of the core commands (Repo/Fix.v) fixed_P44 fixed_P41 fixed_P49 fixed_P43, then fixed_P50 (XvcCachePath::remove); a missing character is 0> | item ; item ; ...
    additional items:  copy [as=<method>] [f] [nr] [no] -- <srchex> <dsthex>
                       move [as=<method>] [nr] -- <srchex> <dsthex>
                       remove [v=cur|all|any|only:<normhex>+...] [f] -- <targethex>...      (_ = the empty content)
